@@ -499,6 +499,9 @@ func templates() []template {
 		{"copyOneMerged", 2, 2, func(ps []PipeSpec) ([]CopyNode, []*Expr) {
 			return []CopyNode{{P(0), 2}}, []*Expr{M(Cp(0, 0), P(1)), Cp(0, 1)}
 		}, false},
+		{"merge5table", 5, 1, func(ps []PipeSpec) ([]CopyNode, []*Expr) {
+			return nil, []*Expr{M(P(0), P(1), P(2), P(3), P(4))}
+		}, false},
 		{"merge6reflect", 6, 1, func(ps []PipeSpec) ([]CopyNode, []*Expr) {
 			return nil, []*Expr{M(P(0), P(1), P(2), P(3), P(4), P(5))}
 		}, false},
@@ -535,6 +538,20 @@ func main() {
 		var pipeSets [][]PipeSpec
 		if t.pipes == 0 {
 			pipeSets = [][]PipeSpec{nil}
+		} else if t.name == "merge5table" {
+			// exactly five sources: the hand-unrolled 5-way select. All are pre-filled and closed (one or two carry
+			// an item), so the only nondeterminism is which ready arm the select takes: every order in which the
+			// reader can see the five ends and the items is enumerated.
+			for _, withItems := range [][]int{{3}, {4}, {0, 3}, {2, 4}} {
+				ps := make([]PipeSpec, 5)
+				for i := range ps {
+					ps[i] = PipeSpec{Cap: 1, Prefill: true}
+				}
+				for _, k := range withItems {
+					ps[k].Items = items(10*(k+1), "1")
+				}
+				pipeSets = append(pipeSets, ps)
+			}
 		} else if t.name == "merge6reflect" {
 			// > 5 sources: the reflect.Select path. Five sources are pre-filled (one item or none) and
 			// closed, one has a live producer: the explorer enumerates every ready-case choice.
@@ -580,7 +597,9 @@ func main() {
 				}
 				sp.Name = fmt.Sprintf("%s/%s/scripts%v", t.name, strings.Join(pd, ","), scr)
 				sc := harness.Scenario{Name: sp.Name, OneOrder: true, HBCache: true, Bounds: bounds, MaxExecs: 3_000_000}
-				if t.name == "merge6reflect" {
+				if t.name == "merge5table" {
+					sc.Bounds = []int{0}
+				} else if t.name == "merge6reflect" {
 					sc.Bounds = []int{0, 1}
 				} else if heavy[t.name] {
 					sc.Bounds = bounds[:len(bounds)-1]
